@@ -146,13 +146,18 @@ func goResolve(base, ref string) (string, bool) {
 	return u.String(), true
 }
 
-func allStrings(v *JV, out *[]string, bases *[]string) {
+// iriStrings collects the strings of a document that stand in IRI positions: member names, values of
+// @id / @type / @base / @vocab, every string inside @context; plain string values too when the
+// document coerces some term to @id or @vocab.
+func iriStrings(v *JV, key string, inCtx, coerced bool, out *[]string, bases *[]string) {
 	switch v.kind {
 	case jStr:
-		*out = append(*out, v.s)
+		if inCtx || coerced || key == "@id" || key == "@type" || key == "@base" || key == "@vocab" {
+			*out = append(*out, v.s)
+		}
 	case jArr:
 		for _, x := range v.xs {
-			allStrings(x, out, bases)
+			iriStrings(x, key, inCtx, coerced, out, bases)
 		}
 	case jObj:
 		for _, m := range v.ms {
@@ -160,9 +165,38 @@ func allStrings(v *JV, out *[]string, bases *[]string) {
 			if m.k == "@base" && m.v.kind == jStr {
 				*bases = append(*bases, m.v.s)
 			}
-			allStrings(m.v, out, bases)
+			k := m.k
+			if m.k == "@value" {
+				continue
+			}
+			iriStrings(m.v, k, inCtx || m.k == "@context", coerced, out, bases)
 		}
 	}
+}
+
+func hasCoercion(v *JV) bool {
+	switch v.kind {
+	case jArr:
+		for _, x := range v.xs {
+			if hasCoercion(x) {
+				return true
+			}
+		}
+	case jObj:
+		for _, m := range v.ms {
+			if m.k == "@type" && m.v.kind == jStr && (m.v.s == "@id" || m.v.s == "@vocab") {
+				return true
+			}
+			if hasCoercion(m.v) {
+				return true
+			}
+		}
+	}
+	return false
+}
+
+func allStrings(doc *JV, out *[]string, bases *[]string) {
+	iriStrings(doc, "", false, hasCoercion(doc), out, bases)
 }
 
 // resolverDeviates: some (base, reference) pair of the document on which /repo's resolver (the net/url
